@@ -111,6 +111,7 @@ def inst(name, cls, names, mem, tier="quick", loops=None, mutants=None, min_obl=
         d["loops"] = loops
     if extra:
         d.update(extra)
+    d["expected_s"] = {'RowSingleton': 60, 'FreeZeroObjVariable': 90, 'ForceConstraint': 45, 'DuplicateCols_main': 70, 'DuplicateCols_perm': 50, 'Aggregation': 60, 'FreeColSingleton': 45, 'ZeroObjColSingleton': 45, 'DuplicateRows': 40, 'MultiAggregation': 30, 'FixVariable': 20, 'DoubletonEquation': 15}.get(name, 10)
     INST.append(d)
 
 
@@ -445,6 +446,13 @@ UNIT = {
         "assert(), SOPLEX_ASSERT_WARN, SPX_MSG_ERROR, SPxOut::debug compiled out; NDEBUG semantics (no SOPLEX_CHECK_BASIS_DIM blocks)",
         "stored sparse vectors capped at CAP entries, solution vectors at DIM entries (loop proofs are inductive; the caps bound object sizes only)",
         "frame/copy clauses compare doubles with ==, extended by NaN==NaN (sign of zero and NaN payload not distinguished)",
+        "the harness passes six distinct TYPED automatic arrays (DIM entries each) for x,y,s,r,cStatus,rStatus and typed arrays for the stored "
+        "vectors instead of __CPROVER_is_fresh byte objects (6-10x faster: no byte-extract at symbolic offsets); logical dimensions nC,nR <= DIM are "
+        "what the container models check every access against; ghost alias pointers are assigned by the harness",
+        "ghost exports appended AFTER the verbatim slice inside body(): g_out = cBasisCandidate (ForceConstraintPS), g_out = domIdx "
+        "(FreeZeroObjVariablePS); DSVEC_CTOR_HOOK exports aliases of the body-local DSVector `slack` (FreeZeroObjVariablePS) for loop assigns clauses",
+        "call-site preconditions of each contract (see contract.c comments) are conformance-checked by regex against spxmainsm.hpp/.h where possible",
+        "VarStatus enumerator values 0..5 are used as literals in loop invariants; the extract regex pins the enumerator order without explicit values",
     ],
     "instances": INST,
 }
